@@ -740,8 +740,37 @@ theorem onConn_q (w : World) (c : Nat) (f : Ctx → PS → PS × Option Err) (ac
 
 /-! ### generic lifting of a per-connection invariant `P n p` (`n` = waiter IDs handed out so far) -/
 
-/-- what it takes for `P` to be kept by every atomic step of the fixed code -/
-structure Pres (P : Nat → Proto → Prop) : Prop where
+/-- `id(waiter)` of a Future that `ping()` is about to register differs from the ids of the Futures that are
+    alive at that moment — the ping waiters still registered on the connection (CPython: `id()` is unique among
+    simultaneously live objects; nothing is claimed about objects that have died).  When the connection is
+    closed `ping()` raises before creating a Future. -/
+def LiveOK (p : Proto) (uid : Nat) : Prop := p.closed = false → uid ∉ p.pingWaiters.keys
+
+instance (p : Proto) (uid : Nat) : Decidable (LiveOK p uid) := by unfold LiveOK; infer_instance
+
+/-- the ping uids of a schedule are ids of simultaneously live objects -/
+def LiveDistinct (w : World) : List Op → Prop
+  | [] => True
+  | op :: rest =>
+    (match op with
+      | .ping c uid _ _ => (match w.conns[c]? with | some k => LiveOK k.p uid | none => True)
+      | _ => True) ∧ LiveDistinct (step w op).1 rest
+
+instance LiveDistinct.dec : (w : World) → (ops : List Op) → Decidable (LiveDistinct w ops)
+  | _, [] => isTrue trivial
+  | w, op :: rest =>
+    have : Decidable (LiveDistinct (step w op).1 rest) := LiveDistinct.dec (step w op).1 rest
+    match op with
+    | .ping c uid _ _ =>
+      match h : w.conns[c]? with
+      | some k => by unfold LiveDistinct; simp only [h]; infer_instance
+      | none => by unfold LiveDistinct; simp only [h]; infer_instance
+    | .newConn | .dgram .. | .timer .. | .transmit .. | .waitConn _ | .waitClosed _ | .close .. | .mkStream ..
+    | .write .. | .eof .. | .sdgram .. => by unfold LiveDistinct; infer_instance
+
+/-- what it takes for `P` to be kept by every atomic step of the fixed code (`g`: the invariant relies on
+    `LiveDistinct`) -/
+structure Pres (g : Bool) (P : Nat → Proto → Prop) : Prop where
   mono : ∀ {n m : Nat} {p : Proto}, P n p → n ≤ m → P m p
   init : ∀ n, P n {}
   initS : ∀ n (rand : CID), P n { issuedG := [rand] }
@@ -759,13 +788,13 @@ structure Pres (P : Nat → Proto → Prop) : Prop where
   waitConn : ∀ (ctx : Ctx) (p : Proto) (n : Nat), ctx.q = Quirks.fixed → P n p → P (n + 1) (waitConnected ctx p n)
   waitClosed : ∀ (p : Proto) (n : Nat), P n p → P (n + 1) (waitClosed p n)
   ping : ∀ (ctx : Ctx) (s : PS) (uid : Nat) (tat : Option Nat) (tx : List Ev) (n : Nat), ctx.q = Quirks.fixed →
-    P n s.p → P (n + 1) (ping ctx s n uid tat tx).1.p
+    (g = true → LiveOK s.p uid) → P n s.p → P (n + 1) (ping ctx s n uid tat tx).1.p
 
 def GInv (P : Nat → Proto → Prop) (w : World) : Prop :=
   ∀ (c : Nat) (k : Conn), w.conns[c]? = some k → P w.nextWid k.p
 
 section Generic
-variable {P : Nat → Proto → Prop} (hP : Pres P)
+variable {g : Bool} {P : Nat → Proto → Prop} (hP : Pres g P)
 include hP
 
 theorem ginv_onConn (w : World) (c : Nat) (f : Ctx → PS → PS × Option Err) (act : Action) (m : Nat)
@@ -807,7 +836,8 @@ theorem ginv_callback (w : World) (hq : w.q = Quirks.fixed) (h : GInv P w) (c : 
   intro k _ hp
   exact hf (w.ctx c k) ⟨w.tbl, k.p⟩ _ hq hp
 
-theorem step_ginv (w : World) (hq : w.q = Quirks.fixed) (h : GInv P w) (op : Op) : GInv P (step w op).1 := by
+theorem step_ginv (w : World) (hq : w.q = Quirks.fixed) (h : GInv P w) (op : Op)
+    (hL : g = true → LiveDistinct w [op]) : GInv P (step w op).1 := by
   cases op with
   | newConn => exact ginv_append hP w h {} (hP.init _) _ rfl rfl
   | dgram c tat evs tx =>
@@ -855,7 +885,8 @@ theorem step_ginv (w : World) (hq : w.q = Quirks.fixed) (h : GInv P w) (op : Op)
     simp only [step]
     intro c' k' hk'
     exact ginv_onConn hP w c _ .none (w.nextWid + 1) (Nat.le_succ _) h
-      (fun k _ hp => hP.ping _ ⟨w.tbl, k.p⟩ uid tat tx _ hq hp) c' k' hk'
+      (fun k hk hp => hP.ping _ ⟨w.tbl, k.p⟩ uid tat tx _ hq
+        (fun hg => by have := (hL hg).1; simp only [hk] at this; exact this) hp) c' k' hk'
   | sdgram addr hdr rand tat evs tx =>
     simp only [step, sdgram]
     split
@@ -895,13 +926,14 @@ theorem run_q (w : World) (ops : List Op) : (run w ops).q = w.q := by
   | nil => rfl
   | cons op ops ih => simp only [run]; rw [ih, step_q]
 
-theorem run_ginv {P : Nat → Proto → Prop} (hP : Pres P) (w : World) (hq : w.q = Quirks.fixed) (h : GInv P w)
-    (ops : List Op) : GInv P (run w ops) := by
+theorem run_ginv {g : Bool} {P : Nat → Proto → Prop} (hP : Pres g P) (w : World) (hq : w.q = Quirks.fixed)
+    (h : GInv P w) (ops : List Op) (hL : g = true → LiveDistinct w ops) : GInv P (run w ops) := by
   induction ops generalizing w with
   | nil => exact h
   | cons op ops ih =>
     simp only [run]
-    exact ih _ (by rw [step_q]; exact hq) (step_ginv hP w hq h op)
+    exact ih _ (by rw [step_q]; exact hq)
+      (step_ginv hP w hq h op (fun hg => ⟨(hL hg).1, trivial⟩)) (fun hg => (hL hg).2)
 
 theorem ginv_init (P : Nat → Proto → Prop) : GInv P ({} : World) := by
   intro c k hk; simp at hk
@@ -914,7 +946,7 @@ def WJ (n : Nat) (p : Proto) : Prop := p.vUid = false → WInv n p
 theorem createStream_vUid (c : Ctx) (p : Proto) (sid : Nat) : (createStream c p sid).vUid = p.vUid := by
   simp only [createStream]; split <;> rfl
 
-theorem presW : Pres WJ where
+theorem presW : Pres false WJ where
   mono := fun h hnm hv => (h hv).mono hnm
   init := fun n _ => WInv.init n
   initS := fun n rand _ => by
@@ -946,7 +978,7 @@ theorem presW : Pres WJ where
   waitConn := fun ctx p n hc h hv =>
     waitConnected_winv ctx hc p (h (by rw [← waitConnected_vUid ctx p n]; exact hv))
   waitClosed := fun p n h hv => waitClosed_winv p (h (by rw [← waitClosed_vUid p n]; exact hv))
-  ping := fun ctx s uid tat tx n hc h hv =>
+  ping := fun ctx s uid tat tx n hc _ h hv =>
     (ping_winv ctx hc s uid tat tx (h (ping_vUid_false ctx hc s n uid tat tx hv)) hv).2
 
 /-! ### instance: timer handle and deferred transmit -/
@@ -998,7 +1030,7 @@ theorem transmit_tj (c : Ctx) (hq : c.q = Quirks.fixed) (s : PS) (tat : Option N
     refine ⟨rearm_sync _ _ (by rw [h1.1, h1.2.1]; exact h), ?_⟩
     simp only [rearm]; exact h1.2.2.1
 
-theorem presT : Pres TJ where
+theorem presT : Pres false TJ where
   mono := fun h _ => h
   init := fun _ => by simp [TJ]
   initS := fun _ _ => by simp [TJ]
@@ -1050,7 +1082,7 @@ theorem presT : Pres TJ where
     simp only [waitConnected]; (repeat' split) <;> exact h
   waitClosed := fun p n h => by
     simp only [waitClosed]; split <;> exact h
-  ping := fun ctx s uid tat tx n hc h => by
+  ping := fun ctx s uid tat tx n hc _ h => by
     have hcc : ctx.q.noClosedCheck = false := by rw [hc]; rfl
     simp only [ping, hcc, Bool.false_eq_true, not_false_eq_true, true_and]
     split
@@ -1368,7 +1400,7 @@ theorem RS.init (g : List CID) : RS ({ issuedG := g } : Proto) := by
   · intro sid r hr; simp [AL.get] at hr
   · intro sid _; simp [dataOf, Proto.finSeen]
 
-theorem presR : Pres RJ where
+theorem presR : Pres false RJ where
   mono := fun h _ => h
   init := fun _ _ _ => RS.init []
   initS := fun _ rand _ _ => RS.init [rand]
@@ -1433,7 +1465,7 @@ theorem presR : Pres RJ where
     simp only [waitConnected]; (repeat' split) <;> (intro hv hs; exact (h hv hs).congr rfl rfl rfl)
   waitClosed := fun p n h => by
     simp only [waitClosed]; split <;> (intro hv hs; exact (h hv hs).congr rfl rfl rfl)
-  ping := fun ctx s uid tat tx n hc h hv hs => by
+  ping := fun ctx s uid tat tx n hc _ h hv hs => by
     have hcc : ctx.q.noClosedCheck = false := by rw [hc]; rfl
     simp only [ping, hcc, Bool.false_eq_true, not_false_eq_true, true_and] at hv hs ⊢
     by_cases hcl : s.p.closed = true
